@@ -146,7 +146,10 @@ func (h *aesCCM) Encrypt(iv, plaintext, additionalData []byte) ([]byte, error) {
 		return nil, fmt.Errorf("cose/key/aesccm: Encryptor.Encrypt: invalid nonce size, expected %d, got %d",
 			nonceSize, len(iv))
 	}
-	aead, _ := NewCCM(h.block, tagSize, nonceSize) // err should never happen
+	aead, err := NewCCM(h.block, tagSize, nonceSize)
+	if err != nil { // the key's algorithm was changed after the Encryptor was created
+		return nil, fmt.Errorf("cose/key/aesccm: Encryptor.Encrypt: %v", err)
+	}
 	// Seal would panic
 	if len(plaintext) > aead.MaxLength() {
 		return nil, fmt.Errorf("cose/key/aesccm: Encryptor.Encrypt: plaintext too large, expected <= %d, got %d",
@@ -169,7 +172,10 @@ func (h *aesCCM) Decrypt(iv, ciphertext, additionalData []byte) ([]byte, error) 
 			nonceSize, len(iv))
 	}
 
-	aead, _ := NewCCM(h.block, tagSize, nonceSize) // err should never happen
+	aead, err := NewCCM(h.block, tagSize, nonceSize)
+	if err != nil { // the key's algorithm was changed after the Encryptor was created
+		return nil, fmt.Errorf("cose/key/aesccm: Encryptor.Decrypt: %v", err)
+	}
 	return aead.Open(nil, iv, ciphertext, additionalData)
 }
 
